@@ -87,6 +87,33 @@ Theorem C03_monitor_is_property_ch : forall (P : prims) i k,
 Proof. exact ch_evidence_spec. Qed.
 Print Assumptions C03_monitor_is_property_ch.
 
+(* The completeness clause of the run-time monitor (evaluated on the implementation's result
+   for the runs the generator marks as honest) is exactly this statement: IF the run is an
+   honest one — the header is absent when the client has no material and otherwise decodes to
+   a claim of k with the suffix of the client's material ckm and a signature valid under k over
+   its first 16 bytes; the first frame the client sends is a ClientAuth of k valid for this
+   session's challenge; the first write is not made to fail — THEN the observed result is
+   "authenticated as k", by key material when the relay exports the same bytes as the client,
+   by the challenge when the client or the RELAY has no material or the suffixes differ. *)
+Theorem C03_monitor_is_property_honest : forall (P : prims) i k ckm o,
+  honest_ok P i k ckm o = true <->
+  (honest_run P i k ckm -> exists m, so_res o = Ok (k, m) /\ mech_spec i k ckm m).
+Proof. exact honest_ok_spec. Qed.
+Print Assumptions C03_monitor_is_property_honest.
+
+Theorem C03_monitor_honest_premise : forall (P : prims) i k ckm,
+  honest_pre P i k ckm = true <-> honest_run P i k ckm.
+Proof. exact honest_pre_spec. Qed.
+Print Assumptions C03_monitor_honest_premise.
+
+(* ... and it holds of the model's own result for every choice of primitives (what makes a
+   run honest is checked on the input, so prims_ok is not needed). *)
+Theorem C03_model_complete_on_honest_runs : forall (P : prims) i k ckm,
+  honest_ok P i k ckm (server P i) = true.
+Proof. exact honest_ok_model. Qed.
+Print Assumptions C03_model_complete_on_honest_runs.
+
+(* covers SHonest inputs: monitor_s and the completeness clause *)
 Theorem C03_model_satisfies_monitor : forall i, monitor i (model i) = true.
 Proof. exact model_satisfies_monitor. Qed.
 Print Assumptions C03_model_satisfies_monitor.
